@@ -296,7 +296,11 @@ class C06(Property):
             'molar/millimolar/mol m-3 per second/minute, one of 6 concentration units PER initial concentration, c0 as dict / list / quantity '
             'array, output times in s/min/ms/h, optional output units) and are converted back before the same comparisons; the Euler-step '
             'claim is re-checked at every output row through the same (unit-carrying) entry point. '
-            'Buckets "explore:*" count the integrations. A case is non-trivial when it is a distinct JSON value with >= 1 reaction.')
+            'HISTORIES (explore:history, euler:*:after-history): parameter scans / refits on the SAME ReactionSystem / Reaction objects '
+            '(from_string or constructor): 2-4 steps, each re-assigns rxn.param over +-2 decades (total spread of the constants <= 8 decades, the calibrated regime), optionally touches rate_expr / rates / '
+            'string / get_odesys, rebuilds with get_odesys and integrates; every integration is compared with the exact solution for the '
+            'CURRENT constants (expm / Riccati), bounds, totals and the Euler-step claim included; 25% of the callback correspondence cases '
+            'are built on objects that carried other constants before. Buckets "explore:*" count the integrations. A case is non-trivial when it is a distinct JSON value with >= 1 reaction.')
     assumptions = (
         'PARTIAL: accuracy and step control of the delegated integrator (pyodesys -> scipy LSODA) are runtime behaviour; sampled, not proved. '
         'Accepted per component: |c_i - ref_i| <= %g*(atol + rtol*|ref_i|) + %g*rtol*max_j|ref_j|; excursion outside [0, ub_i] <= %g*(atol + rtol*ub_i); '
@@ -388,11 +392,14 @@ class C06(Property):
         states = self._states(rng, subs, 4)
         if rng.random() < 0.05:
             states.append(states[0][:-1] if rng.random() < 0.5 else states[0] + [1])      # wrong length
+        pre = None
+        if rng.random() < 0.25:             # history: the same objects carried other constants before (scan / refit), powers of two
+            pre = [[rat_json(F(2) ** rng.randint(-6, 6)) for _ in rxns] for _ in range(rng.randint(1, 2))]
         return {'op': 'max_euler_step_cb', 'subs': subs, 'rxns': rxns, 'states': states, 'planted': planted,
-                'fseed': rng.randrange(10 ** 9)}
+                'fseed': rng.randrange(10 ** 9), 'pre': pre}
 
-    def _linear_case(self, rng, tier):
-        decades = rng.choice([2, 4, 6, 8])
+    def _linear_case(self, rng, tier, max_decades=8):
+        decades = rng.choice([d for d in (2, 4, 6, 8) if d <= max_decades])
         mid = rng.uniform(-2, 2)
         kgen = lambda: rat_json(F(float('%.3g' % (10 ** rng.uniform(mid - decades / 2, mid + decades / 2)))))
         nr = rng.randint(1, 6 if tier == 'quick' else 9)
@@ -441,6 +448,27 @@ class C06(Property):
         return {'kind': 'traj', 'subs': subs, 'rxns': net.rxns, 'c0': c0, 'tout': tout, 'atol': tol, 'rtol': tol,
                 'integrator': rng.choice([None, 'scipy']), 'units': rand_units(rng, len(subs)) if rng.random() < 0.4 else None}
 
+    def _history_case(self, rng, tier):
+        """a parameter scan / refit on the SAME objects: build once, then per step re-assign rate constants (over decades), optionally
+        touch the objects (rate_expr / rates / the old odesys), rebuild with get_odesys and integrate; every integration is compared
+        with the exact solution for the CURRENT constants"""
+        base = None
+        while base is None:
+            base = self._linear_case(rng, tier, max_decades=4) if rng.random() < 0.7 else self._bimol_case(rng, tier)
+        base['units'] = None
+        if base['kind'] == 'bimol' and base['which'] == 'dimer':
+            base['which'] = 'irrev'
+        nr = len(base['rxns']) if base['kind'] == 'linear' else 2
+        steps = []
+        for i in range(rng.randint(2, 4)):
+            scale = [1.0] * nr if i == 0 else [1.0 if rng.random() < 0.3 else float('%.3g' % 10 ** rng.uniform(-2, 2)) for _ in range(nr)]
+            if i > 0 and all(v == 1.0 for v in scale):
+                scale[rng.randrange(nr)] = 100.0
+            steps.append({'scale': scale, 'touch': rng.sample(['rate_expr', 'rates', 'get_odesys', 'string'], rng.randint(0, 2)),
+                          'new_c0': rng.random() < 0.3})
+        return {'kind': 'history', 'base': base, 'source': rng.choice(['from_string', 'from_string', 'ctor']), 'steps': steps,
+                'seed': rng.randrange(10 ** 9)}
+
     def generate(self, rng, n, tier):
         cases = []
         n_int = max(40, n // 5) if tier == 'quick' else n // 6
@@ -450,7 +478,8 @@ class C06(Property):
             while c is None:
                 if i < n_int:
                     r = (i * 7919) % 20
-                    c = self._linear_case(rng, tier) if r < 12 else self._bimol_case(rng, tier) if r < 17 else self._traj_case(rng, tier)
+                    c = (self._history_case(rng, tier) if r in (3, 9, 15) else self._linear_case(rng, tier) if r < 12
+                         else self._bimol_case(rng, tier) if r < 17 else self._traj_case(rng, tier))
                 else:
                     r = rng.random()
                     if r < 0.76:
@@ -479,7 +508,7 @@ class C06(Property):
         op = case.get('op')
         if op == 'max_euler_step_cb':
             return {'op': op, 'keys': [k for k, _ in case['subs']], 'comps': [comp for _, comp in case['subs']],
-                    'rxns': case['rxns'], 'states': case['states']}
+                    'rxns': case['rxns'], 'states': case['states'], 'pre': case.get('pre')}
         if op == 'upper_conc_bounds':
             return {'op': op, 'comps': case['comps'], 'init': case['init']}
         if op == 'first_order_matrix':
@@ -488,7 +517,7 @@ class C06(Property):
 
     def classify(self, case):
         if case.get('op') == 'max_euler_step_cb':
-            return 'euler:%s:nr=%d' % (case.get('planted'), len(case['rxns']))
+            return 'euler:%s:nr=%d%s' % (case.get('planted'), len(case['rxns']), ':after-history' if case.get('pre') else '')
         if case.get('op'):
             return case['op']
         k = case.get('kind')
@@ -497,6 +526,8 @@ class C06(Property):
             return 'explore:linear:decades=%d%s' % (round(math.log10(max(ks) / min(ks))), self._utag(case))
         if k == 'bimol':
             return 'explore:bimol:' + case['which'] + self._utag(case)
+        if k == 'history':
+            return 'explore:history:%s:%s:steps=%d' % (case['base']['kind'], case['source'], len(case['steps']))
         return 'explore:%s%s' % (k, self._utag(case))
 
     def _utag(self, case):
@@ -506,12 +537,15 @@ class C06(Property):
         return ':units-%s-%s' % (un['form'], 'mixed' if len(set(un['conc'])) > 1 else 'uniform')
 
     def nontrivial(self, case):
-        return bool(case.get('rxns')) or case.get('op') == 'upper_conc_bounds' or case.get('kind') == 'bimol'
+        return bool(case.get('rxns')) or case.get('op') == 'upper_conc_bounds' or case.get('kind') in ('bimol', 'history')
 
     # ---- real objects -----------------------------------------------------------------------
-    def _build(self, subs, rxns):
-        """-> (rsys, odesys | exception, extra) for a case; cached between impl and oracle"""
-        key = json.dumps([subs, rxns], sort_keys=True)
+    def _build(self, subs, rxns, pre=None):
+        """-> (rsys, odesys | exception, extra) for a case; cached between impl and oracle.
+        `pre` = HISTORY before the state that is compared: a list of per-reaction scale vectors (powers of two). The SAME Reaction /
+        ReactionSystem objects are first given the constants `param*scale`, used (get_odesys, rate_expr, rates, the callback), and
+        then re-assigned (`rxn.param = ...`) — as in a parameter scan or refit; what is returned is built from the final constants."""
+        key = json.dumps([subs, rxns, pre], sort_keys=True)
         if key in self._cache:
             return self._cache[key]
         from chempy import ReactionSystem, Substance
@@ -519,6 +553,23 @@ class C06(Property):
         substances = OrderedDict((name, Substance(name, composition=OrderedDict((int(e), int(v)) for e, v in comp)))
                                  for name, comp in subs)
         rsys = ReactionSystem([kg.mk_reaction(r, 'float') for r in rxns], substances, checks=())
+        final = [r.param for r in rsys.rxns]
+        for scales in (pre or []):
+            for r, k, sc in zip(rsys.rxns, final, scales):
+                r.param = k * float(_fr(sc))
+            try:
+                with warnings.catch_warnings():
+                    warnings.simplefilter('ignore')
+                    for r in rsys.rxns:
+                        r.rate_expr()
+                    rsys.rates({k: 1.0 for k in rsys.substances})
+                    _o, _e = get_odesys(rsys)
+                    if _e['max_euler_step_cb'] is not None:
+                        _e['max_euler_step_cb'](0, [1.0] * len(substances))
+            except Exception:
+                pass
+        for r, k in zip(rsys.rxns, final):
+            r.param = k
         try:
             with warnings.catch_warnings():
                 warnings.simplefilter('ignore')
@@ -537,7 +588,7 @@ class C06(Property):
             warnings.simplefilter('ignore')
             if op == 'max_euler_step_cb':
                 subs = list(zip(mc['keys'], mc['comps']))
-                rsys, odesys, extra = self._build([list(s) for s in subs], mc['rxns'])
+                rsys, odesys, extra = self._build([list(s) for s in subs], mc['rxns'], mc.get('pre'))
                 if extra is None:                                   # get_odesys / pyodesys refused the system
                     if isinstance(odesys, TypeError) and rsys.check_balance(strict=True) is not True:
                         return 'None'                               # (the model asks the gate first)
@@ -628,13 +679,15 @@ class C06(Property):
                 return self._oracle_bimol(case)
             if kind == 'traj':
                 return self._oracle_traj(case)
+            if kind == 'history':
+                return self._oracle_history(case)
         return None
 
     def _oracle_euler(self, case):
         subs, rxns = case['subs'], case['rxns']
         if case.get('planted') in ('unbalanced', 'nonparticipating'):
             return None
-        rsys, odesys, extra = self._build(subs, rxns)
+        rsys, odesys, extra = self._build(subs, rxns, case.get('pre'))
         if extra is None:
             return None
         cb = extra['max_euler_step_cb']
@@ -715,7 +768,7 @@ class C06(Property):
         return None
 
     # ---- exploration: the delegated integrator ----------------------------------------------
-    def _integrate(self, case, subs, rxns, c0d):
+    def _integrate(self, case, subs, rxns, c0d, rsys=None):
         """text -> from_string -> get_odesys -> integrate; -> (names, tout [s], yout [molar], rsys, cb) or a failure string.
         With case['units'] the unit-aware pipeline is driven (get_odesys(unit_registry=SI_base_registry), rate constants, initial
         concentrations and output times carrying units — a unit per entry —, c0 as dict / list / quantity array) and the
@@ -730,7 +783,8 @@ class C06(Property):
             kw['integrator'] = case['integrator']
         factory = lambda name: Substance(name, composition=comps[name])
         if not un:
-            rsys = ReactionSystem.from_string('\n'.join(rxn_text(r) for r in rxns), substance_factory=factory)
+            if rsys is None:
+                rsys = ReactionSystem.from_string('\n'.join(rxn_text(r) for r in rxns), substance_factory=factory)
             odesys, extra = get_odesys(rsys)
             res = odesys.integrate([0.0] + list(case['tout']), c0d, **kw)
             xout, yout = np.asarray(res.xout), np.asarray(res.yout)
@@ -953,6 +1007,83 @@ class C06(Property):
         if f:
             return f
         return self._euler_along(subs, rxns, names, yout, cb)
+
+    def _bimol_system(self, case):
+        which = case['which']
+        A, B = ('B', 'A') if case['swap'] else ('A', 'B')
+        mk = lambda reac, prod, k: {'reac': reac, 'prod': prod, 'inact_reac': [], 'inact_prod': [], 'param': rat_json(F(k))}
+        subs = [['A', [[1, 1]]], ['B', [[6, 1]]], ['P', [[1, 1], [6, 1]]]]
+        rxns = [mk([['A', 1], ['B', 1]], [['P', 1]], case['kf']), mk([['P', 1]], [['A', 1], ['B', 1]], case['kb'])]
+        c0d = OrderedDict([(A, case['major']), (B, case['minor']), ('P', case['prod'])])
+        return subs, rxns, c0d, A, B
+
+    def _oracle_history(self, case):
+        from chempy import ReactionSystem, Substance
+        from chempy.kinetics.ode import get_odesys
+        base, rng = case['base'], random.Random(case.get('seed', 0))
+        if base['kind'] == 'linear':
+            subs, rxns0 = base['subs'], base['rxns']
+            c0d = OrderedDict((k, v) for (k, _), v in zip(subs, base['c0']))
+        else:
+            base = dict(base, which='rev' if base['which'] in ('rev', 'equal_rev') else 'irrev_as_rev')
+            subs, rxns0, c0d, A, B = self._bimol_system(base)
+            if base['which'] == 'irrev_as_rev':
+                rxns0 = rxns0[:1]
+        comps = {k: OrderedDict((int(e), int(v)) for e, v in comp) for k, comp in subs}
+        if case['source'] == 'from_string':
+            rsys = ReactionSystem.from_string('\n'.join(rxn_text(r) for r in rxns0),
+                                              substance_factory=lambda name: Substance(name, composition=comps[name]))
+        else:
+            substances = OrderedDict((k, Substance(k, composition=comps[k])) for k, _ in subs)
+            rsys = ReactionSystem([kg.mk_reaction(dict(r, param=rat_json(F(float(_fr(r['param']))))), 'float') for r in rxns0], substances)
+        for r, spec in zip(rsys.rxns, rxns0):
+            if sorted(r.reac.items()) != sorted(map(tuple, spec['reac'])):
+                return 'reactions of the system are not in the order of the text'
+        for si, step in enumerate(case['steps']):
+            cur = [dict(r, param=rat_json(F(float(_fr(r['param'])) * sc))) for r, sc in zip(rxns0, step['scale'])]
+            for r, spec in zip(rsys.rxns, cur):                 # the edit: same objects, new constants
+                r.param = float(_fr(spec['param']))
+            for t in step['touch']:
+                if t == 'rate_expr':
+                    [r.rate_expr() for r in rsys.rxns]
+                elif t == 'rates':
+                    rsys.rates({k: 1.0 for k in rsys.substances})
+                elif t == 'string':
+                    rsys.string()
+                elif t == 'get_odesys':
+                    get_odesys(rsys)
+            if step.get('new_c0'):
+                c0d = OrderedDict((k, float('%.4g' % (10 ** rng.uniform(-3, 1)))) for k in c0d)
+            ks = [float(_fr(r['param'])) for r in cur]
+            sub = dict(base, atol=base['atol'], rtol=base['rtol'], units=None)
+            if base['kind'] == 'linear':
+                sub['tout'] = log_times(rng, 0.01 / max(ks), 3.0 / min(ks), 5)
+            else:
+                rate = ks[0] * max(c0d.values()) + (ks[1] if len(ks) > 1 else 0)
+                sub['tout'] = log_times(rng, 0.003 / rate, 30 / rate, 5)
+            r = self._integrate(sub, subs, cur, c0d, rsys=rsys)
+            where = ' [history step %d: constants %r on the same objects]' % (si, ks)
+            if isinstance(r, str):
+                return r + where
+            names, xout, yout, _, cb = r
+            c0 = [c0d[k] for k in names]
+            for t, row in zip(xout[1:], yout[1:]):
+                if base['kind'] == 'linear':
+                    ref = [float(v) for v in self._expm_ref(first_order_M(names, cur), c0, float(t))]
+                else:
+                    bc = dict(base, which='rev' if len(cur) > 1 else 'irrev', kf=ks[0], kb=ks[1] if len(ks) > 1 else 0.0,
+                              major=c0d[A], minor=c0d[B], prod=c0d['P'])
+                    w = self._bimol_exact(bc, float(t), A, B)
+                    ref = [w[k] for k in names]
+                refmax = max(abs(v) for v in ref)
+                for i, k in enumerate(names):
+                    f = self._accurate(sub, k, t, float(row[i]), ref[i], refmax)
+                    if f:
+                        return f + where
+            f = self._admissible(sub, subs, names, yout, c0d) or self._euler_along(subs, cur, names, yout, cb)
+            if f:
+                return f + where
+        return None
 
     def _oracle_traj(self, case):
         subs, rxns = case['subs'], case['rxns']
